@@ -259,13 +259,29 @@ def gen_paths():
         else:
             T.fail(REL, tyn, "unrecognised type in isinstance(targets, ...): %s" % ty)
     b0, e0 = st0.body, st0.orelse
-    ok0 = (len(b0) == 1 and isinstance(b0[0], ast.Assign) and _is_name(b0[0].targets[0], targets)
-           and isinstance(b0[0].value, ast.Set) and len(b0[0].value.elts) == 1 and _is_name(b0[0].value.elts[0], targets)
-           and len(e0) == 1 and isinstance(e0[0], ast.Assign) and _is_name(e0[0].targets[0], targets)
-           and isinstance(e0[0].value, ast.Call) and _is_name(e0[0].value.func, "set")
-           and len(e0[0].value.args) == 1 and _is_name(e0[0].value.args[0], targets))
+
+    def wraps(node):       # {targets} / [targets] / (targets,)
+        return isinstance(node, (ast.Set, ast.List, ast.Tuple)) and len(node.elts) == 1 and _is_name(node.elts[0], targets)
+
+    def dedups(node):      # set(targets) / list(dict.fromkeys(targets)) / dict.fromkeys(targets): a duplicate-free collection
+        if isinstance(node, ast.Call) and len(node.args) == 1 and not node.keywords:
+            f = T.dotted(node.func)
+            if f in ("set", "dict.fromkeys", "frozenset") and _is_name(node.args[0], targets):
+                return True
+            if f in ("list", "tuple") and dedups(node.args[0]):
+                return True
+        return False
+
+    def assigns(st, pred):
+        return isinstance(st, ast.Assign) and len(st.targets) == 1 and _is_name(st.targets[0], targets) and pred(st.value)
+    ok0 = len(b0) == 1 and assigns(b0[0], wraps)
+    if ok0 and e0:
+        ok0 = len(e0) == 1 and assigns(e0[0], dedups)
+    elif ok0:
+        nxt = sp.body[sp.body.index(st0) + 1] if sp.body.index(st0) + 1 < len(sp.body) else None
+        ok0 = nxt is not None and assigns(nxt, dedups)
     if not ok0:
-        T.fail(REL, st0, "target normalisation is not `targets = {targets}` / `targets = set(targets)`")
+        T.fail(REL, st0, "target normalisation is not `targets = {targets}` / a duplicate-free collection of targets")
     A, B, C = _weights_chain(sp, weights)
     sel = []
     selname = None
